@@ -394,14 +394,14 @@ example : processHeartbeat o Cfg.gen false [g] [] [80] ⟨List.replicate 22 65, 
 /-! ### the extracted constants are the protocol's -/
 
 /-- The prefixes are the protocol's `"heartbeat|"` and `"signed_observation_request|"` (every guardian signs under these),
-both floor tests are `prefix length + body length < 34`, and the cap is positive. -/
+both floor tests are `prefix length + body length < 34`, and the fixed per-guardian number of node entries is 15. -/
 theorem c03_protocol_constants :
     Whv.Gen.C03.heartbeatPrefix = [104, 101, 97, 114, 116, 98, 101, 97, 116, 124] ∧
     Whv.Gen.C03.obsReqPrefix = [115, 105, 103, 110, 101, 100, 95, 111, 98, 115, 101, 114, 118, 97, 116, 105, 111, 110, 95,
       114, 101, 113, 117, 101, 115, 116, 124] ∧
     (∀ p n, Whv.Gen.C03.hbTooShort p n = decide (p + n < 34)) ∧
     (∀ p n, Whv.Gen.C03.reqTooShort p n = decide (p + n < 34)) ∧
-    1 ≤ Whv.Gen.C03.maxNodesPerGuardian := by
+    Whv.Gen.C03.maxNodesPerGuardian = 15 := by
   refine ⟨by decide, by decide, fun p n => rfl, fun p n => rfl, by decide⟩
 
 example : "heartbeat|".toList.map (fun c => c.toNat) = Whv.Gen.C03.heartbeatPrefix.map (·.toNat) ∧
